@@ -1117,8 +1117,13 @@ impl RScenario {
             RProp::C17Pair => {
                 // x on the extended domain; second coordinate: weights >= 0 (also read as y)
                 let (xs, m) = gen::scalar_c17(&mut rng, n);
-                let (ws, _, k) = gen::weighted_c08(&mut rng, n);
-                (xs.iter().zip(ws.iter()).map(|(x, w)| (x.to_bits(), w.1.to_bits())).collect(), true, format!("{:?} {:?}", m, k))
+                if rng.chance(0.5) {
+                    let (ws, _, k) = gen::weighted_c08(&mut rng, n);
+                    (xs.iter().zip(ws.iter()).map(|(x, w)| (x.to_bits(), w.1.to_bits())).collect(), true, format!("{:?} {:?}", m, k))
+                } else {
+                    let ws = gen::weights_c17(&mut rng, n);
+                    (xs.iter().zip(ws.iter()).map(|(x, w)| (x.to_bits(), w.to_bits())).collect(), true, format!("{:?} wide weights", m))
+                }
             }
             RProp::C09 => {
                 let (d, m, mode) = gen::pairs_c09(&mut rng, n);
